@@ -269,6 +269,70 @@ def run_case(case) -> List[Tuple[str, str]]:
         shutil.rmtree(work, ignore_errors=True)
 
 
+# ---- structured garbage for the boot loader: a real snapshot with one subtree replaced by junk ----------------
+JUNK = [None, 5, "junk", [1, "x"], {"x": 1}, True, -0.5]
+
+
+def _paths(obj, pre=()):
+    out = [pre] if pre else []
+    if isinstance(obj, dict):
+        for k in sorted(obj):
+            out += _paths(obj[k], pre + (k,))
+    return out
+
+
+def _set_path(obj, path, val):
+    for k in path[:-1]:
+        obj = obj[k]
+    obj[path[-1]] = val
+
+
+def real_snapshot_body(workdir) -> dict:
+    """a snapshot as the real writer produces it (GEL on, two observed edges, maintenance metadata)"""
+    from ..turnrun import Session
+    work = tempfile.mkdtemp(prefix="c20snap_", dir=workdir)
+    try:
+        s = Session(os.path.join(work, "w"), base_cfg={})
+        s.state["graph"] = {
+            "nodes": {"ep0": {"id": "ep0", "label": "zero", "attrs": {"kind": "episode"}}, "ep1": {"id": "ep1"}, "ep2": {"id": "ep2"}},
+            "edges": {"ep0→ep1": {"id": "ep0→ep1", "src": "ep0", "dst": "ep1", "weight": 0.8, "rel": "coact", "updated_at": "2025-09-01T00:00:00Z",
+                                   "attrs": {"coact": 2, "last_seen_turn": 1}},
+                      "ep1→ep2": {"id": "ep1→ep2", "src": "ep1", "dst": "ep2", "weight": 0.6, "rel": "coact", "attrs": {}}},
+            "meta": {"schema": "v1.1", "merges": [["ep0", "ep1"]], "splits": [], "promotions": [], "concept_nodes_count": 0, "edges_count": 2}}
+        s.state["gel"] = s.state["graph"]
+        o = s.run({"graph": True, "maint": True})
+        assert not o["raised"], o["raised"]
+        with open(os.path.join(s.snapdir, "state_A.json")) as f:
+            return json.load(f)
+    finally:
+        shutil.rmtree(work, ignore_errors=True)
+
+
+def semi_garbage_case(case) -> List[Tuple[str, str]]:
+    """the boot loader meets a well-formed snapshot in which one subtree is junk; GEL and its maintenance passes
+    are live, so whatever the loader lets through is consumed by them: the turns must still complete"""
+    from ..turnrun import Session
+    os.environ["CI"] = "true"
+    work = tempfile.mkdtemp(prefix="c20sg_", dir=case["workdir"])
+    try:
+        body = copy.deepcopy(case["body"])
+        _set_path(body, tuple(case["path"]), copy.deepcopy(case["junk"]))
+        s = Session(os.path.join(work, "w"), base_cfg={}, boot_loaded=False)
+        os.makedirs(s.snapdir, exist_ok=True)
+        with open(os.path.join(s.snapdir, "state_A.json"), "w") as f:
+            json.dump(body, f)
+        for turn in range(2):
+            o = s.run({"graph": True, "maint": bool(case.get("maint", True))})
+            where = f"snapshot with {'.'.join(case['path'])} = {case['junk']!r}, turn {turn + 1}"
+            if o["raised"]:
+                return [("TurnCompletes", f"{where}: run_turn raised {o['raised']}")]
+            if not o["log"] or o["log"][-1] != "turn":
+                return [("TurnCompletes", f"{where}: no final turn record: {o['log']}")]
+        return []
+    finally:
+        shutil.rmtree(work, ignore_errors=True)
+
+
 def check(run) -> None:
     q = run.quick
     run.rule = ("every fault set (singles; pairs in thorough) over the declared fail-soft sites x exception types (x garbage contents for the boot loader), "
@@ -330,6 +394,21 @@ def check(run) -> None:
                 from ..tlc import TLCError
                 raise TLCError("C20 harness: " + msg)
             run.fail(clause, {"clause": clause, "sites": sorted(c["sites"])}, cc, msg, replay={"case": cc})
+    # structured garbage: every subtree of a real snapshot replaced by every junk value, GEL live
+    body = real_snapshot_body(run.workdir)
+    paths = _paths(body)
+    sg_cases = [{"path": list(pth), "junk": j, "body": body, "workdir": run.workdir, "maint": (i + k) % 2 == 0}
+                for i, pth in enumerate(paths) for k, j in enumerate(JUNK) if not q or (i + k) % 2 == 0]
+    run.extra["snapshot_subtrees_mutated"] = len(paths)
+    for c, fails in zip(sg_cases, pmap(semi_garbage_case, sg_cases, chunk=4)):
+        run.traces += 1
+        cc = {k: v for k, v in c.items() if k not in ("workdir", "body")}
+        run.case(("semi_garbage", json.dumps(cc, sort_keys=True)))
+        if not fails:
+            run.ok("FailSoft.structured_garbage_snapshot_tolerated")
+        for clause, msg in fails:
+            run.fail(clause, {"clause": clause, "sites": ["boot_structured_garbage"], "path": ".".join(c["path"][-1:])}, cc, msg,
+                     replay={"semi": dict(cc, body=c["body"])})
     # record-sequence conformance with all optional subsystems live (spec vector) for the sites the spec models
     seq_cases = []
     for fs, log in sorted(spec_log.items()):
@@ -381,6 +460,8 @@ def replay(rep) -> int:
     os.makedirs("/verif/.work/C20", exist_ok=True)
     if "case" in r:
         fails = run_case(dict(r["case"], workdir="/verif/.work/C20"))
+    elif "semi" in r:
+        fails = semi_garbage_case(dict(r["semi"], workdir="/verif/.work/C20"))
     else:
         fails = run_seq_case(dict(r["seq"], workdir="/verif/.work/C20"))
     for f in fails:
